@@ -778,6 +778,9 @@ func runMulti(t *testing.T, run *vt.Run, c vt.CaseID, rng *rand.Rand) {
 	}
 	cleanupLatency := map[string]time.Duration{}
 	allSlow := rng.IntN(2) == 0
+	// how long the releases of every result can take when they happen one after the other (the error path of the
+	// multi-set call releases the results of the sets that had succeeded sequentially)
+	drain := 500 * time.Millisecond
 	if rng.IntN(2) == 0 {
 		for id := range outcome {
 			_ = id
@@ -786,6 +789,7 @@ func runMulti(t *testing.T, run *vt.Run, c vt.CaseID, rng *rand.Rand) {
 			for _, in := range q.Instances {
 				if allSlow || rng.IntN(3) == 0 {
 					cleanupLatency["res-"+in.ID] = time.Duration(1+rng.IntN(100)) * time.Millisecond
+					drain += cleanupLatency["res-"+in.ID]
 				}
 			}
 		}
@@ -846,7 +850,7 @@ func runMulti(t *testing.T, run *vt.Run, c vt.CaseID, rng *rand.Rand) {
 			synctest.Wait()
 			poll()
 			if returned == nil && len(cleanupLatency) > 0 {
-				time.Sleep(500 * time.Millisecond) // a slow cleanup in progress delays the return legitimately
+				time.Sleep(drain) // a slow cleanup in progress delays the return legitimately
 				synctest.Wait()
 				poll()
 			}
@@ -881,7 +885,7 @@ func runMulti(t *testing.T, run *vt.Run, c vt.CaseID, rng *rand.Rand) {
 			v := specVerdict()
 			if v != undecided && returned == nil && len(cleanupLatency) > 0 {
 				// a set may still be busy releasing results it does not need: let slow cleanups finish
-				time.Sleep(500 * time.Millisecond)
+				time.Sleep(drain)
 				synctest.Wait()
 				poll()
 			}
